@@ -201,7 +201,7 @@ def rule_tt_comm(ctx: Ctx) -> None:
     p = ctx.prog
     ctx.assumptions.add('A3')
     ctx.rule('TT-SYM', 'triangular (symmetric=True) communication is used only for values that are symmetric matrices', floor=4)
-    ctx.rule('TT-BUF', 'receive placeholders of the inverse broadcasts have the sizes and dtype of the value the source computed', floor=5)
+    ctx.rule('TT-BUF', 'receive placeholders of the inverse and gradient broadcasts have the sizes and dtype of the value the source computed', floor=8)
     for tag, cls, flags in (('eigen', EIG, {'self.symmetric_factors': True, 'self.prediv_eigenvalues': False}),
                             ('eigen+prediv', EIG, {'self.symmetric_factors': True, 'self.prediv_eigenvalues': True}),
                             ('inverse', INV, {'self.symmetric_factors': True})):
@@ -250,6 +250,28 @@ def rule_tt_comm(ctx: Ctx) -> None:
             ok = isinstance(va, TV) and isinstance(vb, TV) and _size_axes(va.axes) == _size_axes(vb.axes) and va.dtype == vb.dtype and a[3][2] == b[3][2]
             ctx.check(ok, 'TT-BUF', b[1], f'[{tag}] {m}: placeholder {vb} matches source {va}', norm(b[2])[:100],
                       f'[{tag}] {m}: the source broadcasts {va} (symmetric={a[3][2]}) but a receiver allocates {vb} (symmetric={b[3][2]}): sizes or dtype differ, the collective would mismatch', b[2])
+        # gradient broadcast: the source sends the slot preconditioned_grad left, a receiver allocates a placeholder
+        it_pg, sl_pg = run_methods(ctx, cls, ['compute_a_inv', 'compute_g_inv', 'preconditioned_grad'], flags)
+        fb = p.lookup_method(cls, 'broadcast_grad')
+        if sl_pg is not None and fb is not None:
+            pair = []
+            for role, fl, slots0 in (('source', flags, dict(sl_pg)), ('receiver', {**flags, 'get_rank() == src': False}, base_slots(cls))):
+                it_b = Interp(p, fl, layer_oracle)
+                it_b.concrete = [cls]
+                it_b.call_function(fb, {'self': ObjV('self'), 'src': SV((), 'src', 'num'), 'group': ObjV('group')}, slots0)
+                _incomplete(it_b, f'{cls} [{tag}] broadcast_grad ({role})', ('broadcast_grad',))
+                cm = [ev for ev in it_b.events if ev[0] == 'comm']
+                pair.append(cm)
+            if len(pair[0]) != 1 or len(pair[1]) != 1:
+                ctx.violate('TT-BUF', fb, f'{tag} grad count', f'[{tag}] broadcast_grad: the source issues {len(pair[0])} broadcast(s), a receiver {len(pair[1])}; exactly one each expected', fb.node)
+            else:
+                a, b = pair[0][0], pair[1][0]
+                va, vb = a[3][1], b[3][1]
+                if not isinstance(va, TV) or not isinstance(vb, TV) or T.has_q(va.axes) or T.has_q(vb.axes):
+                    raise AnalysisIncomplete(f'[{tag}] broadcast_grad: payload not typed (source {va}, receiver {vb})')
+                ok = _size_axes(va.axes) == _size_axes(vb.axes) and va.dtype == vb.dtype and a[3][2] == b[3][2]
+                ctx.check(ok, 'TT-BUF', b[1], f'[{tag}] broadcast_grad: placeholder {vb} matches source {va}', f'[{tag}] ' + norm(b[2])[:90],
+                          f'[{tag}] broadcast_grad: the source broadcasts {va} (dtype {va.dtype}) but a receiver allocates {vb} (dtype {vb.dtype}): sizes or dtype differ, the collective would mismatch', b[2])
     # factor reductions: symmetric flag only for the (symmetric) factors
     for m, slot in (('reduce_a_factor', 'a_factor'), ('reduce_g_factor', 'g_factor')):
         it = Interp(p, {'self.symmetric_factors': True, 'self.allreduce_method == AllreduceMethod.ALLREDUCE': True}, layer_oracle)
@@ -677,6 +699,7 @@ def rule_alias_grad(ctx: Ctx) -> None:
     """ALIAS-GRAD: nothing writes into storage aliased with a module gradient between preconditioning and write-back
     (KAISA layers here; the GPT-NeoX layer in rule_gpt_layer)."""
     p = ctx.prog
+    rule_alias_pool(ctx)
     ctx.rule('ALIAS-GRAD', 'preconditioned_grad / broadcast_grad never write in place into storage aliased with module.weight.grad / bias.grad', floor=3)
     for tag, cls, flags in (('eigen', EIG, {'self.symmetric_factors': True, 'self.prediv_eigenvalues': False}),
                             ('eigen+prediv', EIG, {'self.symmetric_factors': True, 'self.prediv_eigenvalues': True}),
@@ -694,6 +717,99 @@ def rule_alias_grad(ctx: Ctx) -> None:
         if isinstance(g, TV):
             ctx.check(not any(a.startswith('param.grad') for a in g.alias), 'ALIAS-GRAD', f, f'[{tag}] grad slot is a fresh tensor', f'{tag} grad slot alias',
                       f'[{tag}] the preconditioned gradient stored in the layer may alias the module gradient ({sorted(g.alias)})', f.node)
+        # a gradient receiver: the buffer handed to the broadcast (which writes into it) must not alias the module gradient
+        fb = p.lookup_method(cls, 'broadcast_grad')
+        it_r = Interp(p, {**flags, 'get_rank() == src': False}, layer_oracle)
+        it_r.concrete = [cls]
+        _r, fin = it_r.call_function(fb, {'self': ObjV('self'), 'src': SV((), 'src', 'num'), 'group': ObjV('group')}, base_slots(cls))
+        cm = [ev for ev in it_r.events if ev[0] == 'comm']
+        badr = [ev for ev in cm if isinstance(ev[3][1], TV) and any(a.startswith('param.grad') for a in ev[3][1].alias)]
+        for ev in badr:
+            ctx.violate('ALIAS-GRAD', ev[1], f'[{tag}] ' + norm(ev[2])[:90], f'[{tag}] broadcast_grad on a receiver passes {ev[3][1]} to the broadcast, which writes the received values into it, '
+                        f'and it may share storage with the module gradient ({sorted(ev[3][1].alias)}): _compute_grad_scale would read the preconditioned gradient in place of the gradient', ev[2])
+        if cm and not badr:
+            ctx.ok('ALIAS-GRAD', fb, f'[{tag}] receive buffer of broadcast_grad is fresh', fb.node)
+
+
+def _key_identifies_layer(p, m: Func, key: ast.expr) -> bool:  # noqa: ANN001
+    """The key contains the layer's own identity: self, self.name, self.module or id(...) of one of them, as an
+    element (not merely something computed from them such as a shape)."""
+    parents = p.modules[m.module].parents
+    todo = [key]
+    seen: set[str] = set()
+    while todo:
+        e = todo.pop()
+        for x in ast.walk(e):
+            t = norm(x)
+            if t in ('self', 'self.name', 'self.module', 'id(self)', 'id(self.module)'):
+                par = parents.get(id(x))
+                if t.startswith('id(') or not (isinstance(par, ast.Attribute) or (isinstance(par, ast.Call) and par.func is x)):
+                    if not (t == 'self' and isinstance(par, ast.Attribute)):
+                        return True
+            if isinstance(x, ast.Name) and isinstance(x.ctx, ast.Load) and x.id not in seen and x.id != 'self':
+                seen.add(x.id)
+                todo.extend(p.local_defs(m, x.id))
+    return False
+
+
+def rule_alias_pool(ctx: Ctx) -> None:
+    """ALIAS-POOL: a tensor slot of a layer is never bound to storage taken from a container that other layers can
+    reach under the same key (buffer pools keyed by shape / dtype): two layers would then hold one tensor."""
+    p = ctx.prog
+    ctx.rule('ALIAS-POOL', 'tensor slots of a layer are bound to fresh tensors or to storage keyed by the layer itself, never to a pooled buffer other layers can obtain', floor=1)
+    slots_all = {'grad', 'a_factor', 'g_factor', 'a_inv', 'g_inv', 'qa', 'qg', 'da', 'dg', 'dgda', '_a_batch', '_g_batch'}
+    # attributes that constructors initialise as containers (dict / list / defaultdict, or annotated as such)
+    containers: set[str] = set()
+    for g in p.functions():
+        if g.name != '__init__':
+            continue
+        for st in p.nodes(g):
+            if isinstance(st, (ast.Assign, ast.AnnAssign)):
+                tg = st.targets[0] if isinstance(st, ast.Assign) else st.target
+                ann = norm(getattr(st, '_kfv_ann', None) or getattr(st, 'annotation', None) or ast.Constant(value=''))
+                v = st.value
+                if isinstance(tg, ast.Attribute) and v is not None and (isinstance(v, (ast.Dict, ast.List, ast.DictComp, ast.ListComp))
+                                                                        or (isinstance(v, ast.Call) and norm(v.func).split('.')[-1] in ('dict', 'list', 'defaultdict', 'OrderedDict'))
+                                                                        or ann.startswith(('dict[', 'list[', 'Dict[', 'List[', 'defaultdict['))):
+                    containers.add(tg.attr)
+    n = 0
+    for c in p.subclasses(BASE):
+        for m in c.methods.values():
+            for st in p.nodes(m):
+                if not isinstance(st, ast.Assign):
+                    continue
+                for t in st.targets:
+                    if not (isinstance(t, ast.Attribute) and isinstance(t.value, ast.Name) and t.value.id == 'self' and t.attr.lstrip('_') in {x.lstrip('_') for x in slots_all}):
+                        continue
+                    n += 1
+                    # loads `<container>[key]` the value may come from (through locals)
+                    srcs = [st.value]
+                    seen: set[str] = set()
+                    pooled = []
+                    while srcs:
+                        e = srcs.pop()
+                        for x in ast.walk(e):
+                            if isinstance(x, ast.Subscript) and isinstance(x.ctx, ast.Load) and isinstance(x.value, ast.Attribute) and norm(x.value).startswith('self.') \
+                                    and x.value.attr in containers and not isinstance(x.slice, ast.Slice) \
+                                    and not (isinstance(x.slice, ast.Tuple) and any(isinstance(z, ast.Slice) for z in x.slice.elts)):
+                                par = p.modules[m.module].parents.get(id(x))
+                                if isinstance(par, (ast.Attribute, ast.Call)) and not (isinstance(par, ast.Call) and x in par.args):
+                                    continue     # container[key].attr / container[key](...) : not the stored object itself
+                                pooled.append(x)
+                            if isinstance(x, ast.Name) and isinstance(x.ctx, ast.Load) and x.id not in seen and x.id != 'self' and (x is e or e is st.value or True):
+                                seen.add(x.id)
+                        for nm in list(seen):
+                            for d in p.local_defs(m, nm):
+                                if id(d) not in {id(z) for z in srcs} and not getattr(d, '_kfv_seen', False):
+                                    d._kfv_seen = True  # type: ignore[attr-defined]
+                                    if isinstance(d, (ast.Subscript, ast.Name, ast.IfExp)):
+                                        srcs.append(d)
+                    for x in pooled:
+                        ident = _key_identifies_layer(p, m, x.slice)
+                        ctx.check(ident, 'ALIAS-POOL', m, f'{norm(t)} <- {norm(x)[:60]} keyed by the layer', f'{norm(t)} <- {norm(x)[:70]}',
+                                  f'{m.short}: {norm(t)} is bound to {norm(x)}, a buffer held in a container outside the layer under a key ({norm(x.slice)}) that does not identify the layer: '
+                                  'another layer with the same key receives into / reads from the same storage', st)
+    ctx.ok('ALIAS-POOL', 'kfac.layers', f'{n} slot assignments scanned; none takes pooled storage', None)
 
 
 def rule_alias_input(ctx: Ctx) -> None:
